@@ -269,6 +269,10 @@ def outreg_cases(rng, n):
         def code(fm):
             lo, hi = S.fmt_bounds(fm[0], fm[1]); return rng.choice([lo, hi, hi - 1, lo + 1, rng.randint(lo, hi), rng.randint(lo, hi)])
         op = rng.choice(['+', '-', '*', '*', 'sum', 'max', 'dot', 'prod', 'cumsum'])
+        if op in '+-' and not narrow and rng.random() < 0.5:
+            # the register's fraction length puts the aligned operands at the int64 edge: each aligned code still fits, their sum or difference does not
+            nfo_ = 63 - max(fxm[1] - fxm[2], fym[1] - fym[2]) + rng.choice([-1, 0, 0, 1])
+            if 0 <= nfo_ <= nwo - 2: nfo = nfo_
         more = []
         if op in ('sum', 'max', 'dot', 'prod', 'cumsum'):
             if rng.random() < 0.5 or op in ('dot', 'prod', 'cumsum'):
@@ -374,6 +378,7 @@ def shard(shard, nshards, rng, tier, extra):
         sweep = [S.as_number(v) for v in S.quarter_lsb_sweep(s, nw, nf)]
         for mi, r in enumerate(RMODES):
             cases.append({'s': s, 'nw': nw, 'nf': nf, 'r': r, 'o': 'wrap', 'carrier': 'arr:float64', 'route': S.ROUTES[(idx + mi) % 4], 'vals': sweep, 'setmode': 'slice'})
+            if (idx + mi) % 5 == 0: cases[-1]['ack'] = True      # (the object carries a callback that resets the flags inside the event: the stored codes are the same)
     check_store_cases(cases, res, 'A:exhaustive-quarter-LSB-wrap', 'C03')
     n = (4000 if tier == 'quick' else 120000) // nshards
     cases = []
@@ -381,6 +386,7 @@ def shard(shard, nshards, rng, tier, extra):
         s, nw, nf = S.random_format(rng)
         vals = [S.as_number(v) for v in S.boundary_values(rng, s, nw, nf, rng.choice([1, 2, 4]))]
         cases.append({'s': s, 'nw': nw, 'nf': nf, 'r': rng.choice(RMODES), 'o': 'wrap', 'carrier': rng.choice(S.carriers_for(vals, rng)), 'route': rng.choice(S.ROUTES), 'vals': vals, 'setmode': 'slice'})
+        if rng.random() < 0.15: cases[-1]['ack'] = True
     check_store_cases(cases, res, 'B:random-core-wrap', 'C03')
     run_period(period_cases(rng, (1500 if tier == 'quick' else 40000) // nshards), res)
     run_wide(wide_cases(rng, (2500 if tier == 'quick' else 60000) // nshards), res)
